@@ -29,6 +29,14 @@ def handle_value(prog, ptr=HANDLE_PTR, idx=3):
             vals.append(I(idx))
         else:
             vals.append(("sym", "handle_field_%s" % f["name"]))
+    if "index" not in pos:
+        # an index newtype: the field whose type is what Slots::add returns; its value stays an opaque token
+        add = (prog.fn_n.get("dynamic_roots::Slots::add") or [{}])[0]
+        rs = (add.get("output") or {}).get("s")
+        for i, f in enumerate(a["variants"][0]["fields"]):
+            if rs and f.get("ty_s") == rs and i not in pos.values():
+                pos["index"] = i
+                vals[i] = ("sym", "slot_token")
     return adt(DR, 0, tuple(vals)), pos
 
 
@@ -133,6 +141,8 @@ def _well_formed_set(prog, st, hv, pos):
     if set(vn) != {"Vacant", "Occupied"}:
         return {}
     occ_i, vac_i = vn.index("Occupied"), vn.index("Vacant")
+    if hv[3][pos["index"]][0] != "i":
+        return {}
     idx = hv[3][pos["index"]][1]
     occ_fields = []
     for f in aslot["variants"][occ_i]["fields"]:
